@@ -126,7 +126,10 @@ def _split_into_branches(
 
         if current_parent == -1 and is_single_point_soma and current_ind == 1:
             all_branches.append([int(current_ind)])
-            all_types.append(int(current_type))
+            # The next branch is the first neurite. It starts with the second row of
+            # the file, so this is its type (`current_type` is still unset or stale
+            # here).
+            all_types.append(int(content[1, 1]))
 
         # Either append the current point to the branch, or add the branch to
         # `all_branches`.
